@@ -145,11 +145,27 @@ func (r *Renderer) Command(x, tag, owner string) *Line {
 		if !ok {
 			pass = r.wrongPass()
 		}
+		if p == "pw" {
+			// the user's own password, padded with white space (or the user name padded): other credentials
+			own := UserPass[u]
+			pass = r.pick(" "+own, own+" ", own+"\t", "  "+own+"  ", own+"\r\n")
+			if r.Rnd.Intn(4) == 0 {
+				pass, name = own, name+" "
+			}
+		}
 		verb("LOGIN")
 		add(" ")
-		r.astr(&ch, name, !strings.ContainsAny(name, " *%"))
+		cred := func(s string) {
+			if strings.ContainsAny(s, "\r\n") { // only a literal can carry a line break
+				ch[len(ch)-1] += fmt.Sprintf("{%d}\r\n", len(s))
+				ch = append(ch, s)
+				return
+			}
+			r.astr(&ch, s, !strings.ContainsAny(s, " *%\t"))
+		}
+		cred(name)
 		add(" ")
-		r.astr(&ch, pass, !strings.ContainsAny(pass, " *%"))
+		cred(pass)
 	case x == "CAPABILITY" || x == "NOOP" || x == "LOGOUT" || x == "STARTTLS" || x == "CHECK" || x == "CLOSE" ||
 		x == "EXPUNGE" || x == "UNSELECT" || x == "IDLE":
 		verb(x)
